@@ -844,7 +844,10 @@ type inlCallee struct {
 	results  []inlVar
 	recv     *inlVar
 	imports  map[string]string // local name -> path used by body or signature
+	free     map[string]types.Object // package-level, file-level and universe names the body uses
 }
+
+func isPkgName(o types.Object) bool { _, ok := o.(*types.PkgName); return ok }
 
 type inlVar struct {
 	name string // fresh name (with marker)
@@ -1402,6 +1405,24 @@ func (in *inliner) expand(call *ast.CallExpr) (pre string, repl string, ok bool)
 	if len(call.Args) != sig.Params().Len() || call.Ellipsis.IsValid() {
 		return "", "", false
 	}
+	// names the body takes from the package, file or universe scope must not be shadowed where the call stands
+	if sc := in.p.Types.Scope().Innermost(call.Pos()); sc != nil {
+		for name, want := range ce.free {
+			_, got := sc.LookupParent(name, call.Pos())
+			if got == nil {
+				continue
+			}
+			if pn, ok := want.(*types.PkgName); ok {
+				if gpn, ok2 := got.(*types.PkgName); ok2 && gpn.Imported() == pn.Imported() {
+					continue
+				}
+			}
+			if got != want {
+				in.notes = append(in.notes, fmt.Sprintf("call of new function %s in %s (%s) is not expanded: the name %s means something else there", obj.FullName(), in.cur.Name.Name, in.c.Pos(call.Pos()), name))
+				return "", "", false
+			}
+		}
+	}
 	// imports needed by the expansion must be available in this file under the same name
 	for name, path := range ce.imports {
 		have := ""
@@ -1560,6 +1581,12 @@ func (in *inliner) prepare(ce *inlCallee) error {
 			if o := info.Uses[x]; o != nil {
 				if nn, ok := rename[o]; ok {
 					x.Name = nn
+				} else if o.Parent() == in.p.Types.Scope() || o.Parent() == types.Universe || isPkgName(o) {
+					// a name of the package, file or universe scope: at the call site it must mean the same thing
+					if ce.free == nil {
+						ce.free = map[string]types.Object{}
+					}
+					ce.free[x.Name] = o
 				}
 			}
 			if o := info.Defs[x]; o != nil {
@@ -1579,6 +1606,34 @@ func (in *inliner) prepare(ce *inlCallee) error {
 		return true
 	})
 	noteImports(fd.Body)
+	// `a, err := f()` at the top level of a function that has a parameter or named result `err` assigns to that
+	// variable (same scope). In the expansion the body sits in a nested block, where the same statement would declare a
+	// new variable and leave the result untouched. Such a statement becomes `a, tmp := f(); err = tmp`.
+	{
+		var list []ast.Stmt
+		nt := 0
+		for _, st := range fd.Body.List {
+			list = append(list, st)
+			as, ok := st.(*ast.AssignStmt)
+			if !ok || as.Tok != token.DEFINE {
+				continue
+			}
+			for k, lhs := range as.Lhs {
+				id, ok := lhs.(*ast.Ident)
+				if !ok || id.Name == "_" || info.Defs[id] != nil {
+					continue
+				}
+				if o := info.Uses[id]; o == nil || rename[o] == "" {
+					continue
+				}
+				nt++
+				tmp := ast.NewIdent(fmt.Sprintf("__t%d_%s", nt, inlMarker))
+				as.Lhs[k] = tmp
+				list = append(list, &ast.AssignStmt{Lhs: []ast.Expr{id}, Tok: token.ASSIGN, Rhs: []ast.Expr{ast.NewIdent(tmp.Name)}})
+			}
+		}
+		fd.Body.List = list
+	}
 	// returns (not inside function literals)
 	brk := func() ast.Stmt {
 		return &ast.BranchStmt{Tok: token.BREAK, Label: ast.NewIdent("__L_" + inlMarker)}
@@ -1896,6 +1951,7 @@ func (in *inliner) exprInline(root ast.Node) {
 		}
 		var subs []sub
 		okAll := true
+		callScope := in.p.Types.Scope().Innermost(call.Pos())
 		ast.Inspect(body, func(m ast.Node) bool {
 			id, ok := m.(*ast.Ident)
 			if !ok {
@@ -1904,6 +1960,20 @@ func (in *inliner) exprInline(root ast.Node) {
 			o := info.Uses[id]
 			if o == nil {
 				return true
+			}
+			// a package-level, file-level or universe name must mean the same thing where the call stands
+			if callScope != nil && (o.Parent() == in.p.Types.Scope() || o.Parent() == types.Universe || isPkgName(o)) {
+				if _, got := callScope.LookupParent(id.Name, call.Pos()); got != nil && got != o {
+					same := false
+					if pn, ok := o.(*types.PkgName); ok {
+						if gpn, ok2 := got.(*types.PkgName); ok2 && gpn.Imported() == pn.Imported() {
+							same = true
+						}
+					}
+					if !same {
+						okAll = false
+					}
+				}
 			}
 			for k, po := range params {
 				if po != nil && po == o {
